@@ -5,7 +5,9 @@ cd /verif || exit 2
 bad=0
 for p in C01 C02 C03 C04 C05 C06 C07 C08 C09 C10 C11 C13 C14 C15 C16 C17 C18 C19 C20; do
   if [ "$1" = "--fast" ] && [ "$p" = "C06" ]; then continue; fi
-  l=$(./check "$p" 2>&1 | grep -v conda | grep -v "^KNOWN-FINDING" | tail -1)
+  o=$(./check "$p" 2>&1 | grep -v conda)
+  if echo "$o" | grep -q "^note: property="; then echo "BASELINE STALE: $p consulted the witnesses on the unchanged tree (run tools/mkcoverbaseline.py)"; bad=1; fi
+  l=$(echo "$o" | grep -v "^KNOWN-FINDING" | tail -1)
   case "$l" in
     "OK property="*) ;;
     *) echo "NOT PROVED: $p: ${l:0:200}"; bad=1 ;;
